@@ -341,6 +341,34 @@ int main(int argc, char ** argv)
                                                            + (tf ? std::string("an exception") : of.substr(0, 100)));
       }
   }
+  if (pshard == 0 && which == 0) {
+    // names that only contain a supported name (leading junk) are invalid configurations
+    static const struct { const char * name; bool dbd; } JUNK[] = {{" Mo100", true}, {"xMo100", true}, {"A=100:Mo100", true}, {" K40", false}, {"xK40", false}, {"my_Bi214", false}, {"60Co60", false}};
+    for (auto & j : JUNK) {
+      grid_cells++;
+      decay0_generator G;
+      bool refused = throws([&] {
+        G.set_decay_category(j.dbd ? decay0_generator::DECAY_CATEGORY_DBD : decay0_generator::DECAY_CATEGORY_BACKGROUND);
+        G.set_decay_isotope(j.name);
+        if (j.dbd) {
+          G.set_decay_dbd_level(0);
+          G.set_decay_dbd_mode(bxdecay0::DBDMODE_1);
+        }
+        Tape t2(seed, 13);
+        G.initialize(t2);
+      });
+      if (!refused || G.is_initialized()) {
+        std::string key = std::string("invalid-configuration-accepted|name-with-leading-junk");
+        Mismatch & x = mm[key];
+        if (x.count++ == 0) {
+          x.key = key;
+          x.detail = std::string("initialize() accepts the isotope name '") + j.name + "'";
+        }
+      } else {
+        grid_refused++;
+      }
+    }
+  }
   while (!frontier.empty()) {
     std::string sk = frontier.front();
     frontier.pop_front();
@@ -358,7 +386,20 @@ int main(int argc, char ** argv)
       // every replay starts from the same environment.  ("none" is a directory that does not exist: the library keeps the last
       // directory it saw when the variable is removed, which is outside what the property speaks about)
       if (which == 1) setenv("BXDECAY0_DBD_GA_DATA_DIR", g_ga_dir[0].c_str(), 1);
+      // every fifth trace runs with the debug switch on from the start (its chatter muted): is_debug() is a getter like the others -
+      // it must stay on until reset() and be off after it, as on a new object
+      const bool with_debug = (hash_str(seq_str(s)) % 5) == 0;
+      struct Mute
+      {
+        std::streambuf * old = nullptr;
+        std::ostringstream sink;
+        explicit Mute(bool on) { if (on) old = std::cerr.rdbuf(sink.rdbuf()); }
+        ~Mute() { if (old) std::cerr.rdbuf(old); }
+      } mute(with_debug);
+      bool debug_expected = with_debug;
+      if (with_debug) G->set_debug(true);
       for (size_t k = 0; k < s.size(); k++) {
+        if (ops[s[k]].name == "reset") debug_expected = false;
         Model before = m;
         bool mt = ops[s[k]].model(m);
         if (mt && ops[s[k]].name != "reset") {
@@ -380,6 +421,11 @@ int main(int argc, char ** argv)
         std::string d = getters_diff(*G, it != mt ? before : m);
         if (!diverged && !d.empty()) {
           fail("getters", s, d);
+          diverged = true;
+        }
+        if (!diverged && G->is_debug() != debug_expected) {
+          fail(ops[s[k]].name == "reset" ? "reset-not-fresh" : "getters", s, fmt("is_debug() = %d, expected %d (switched on at construction%s)", G->is_debug(), debug_expected,
+                                                                                 debug_expected ? "" : ", a reset() since"));
           diverged = true;
         }
         if (!diverged && ops[s[k]].name == "reset") {
